@@ -14,7 +14,7 @@
  'assumptions': ['valid state on entry (SV with moved-from elements allowed), instantiated at the ghost slot and at the slot the loop destroys', 'T = ELEM, N = CAP arbitrary in [1, 2^36]'],
 } @*/
 #include "c14_sv.h"
-#define SPEC_INV(j) ((j) >= CAP || ((j) < pos ? self->_data[j].g_state == ELEM_RAW : SV_SLOT_VALID(self, j)))
+#define SPEC_INV(j) ((j) >= CAP || ((j) < pos ? ELEM_ST(&self->_data[j]) == ELEM_RAW : SV_SLOT_VALID(self, j)))
 #define C14_HAVE_SV
 #include "cxx/sv.c"
 #include "c14_harness.h"
@@ -27,13 +27,13 @@ void harness(void)
     g_k = k;
     struct static_vector v;
     c14_sv_any(&v, m, vals);
-    if (k < m && st) v._data[k].g_state = ELEM_MOVED;   /* an element may be in the moved-from state */
+    if (k < m && st) ELEM_SET(&v._data[k], ELEM_MOVED, ELEM_V(&v._data[k]));   /* an element may be in the moved-from state */
     ELEM *storage = v._data;
 
     static_vector_dtor(&v);
 
     V(__CPROVER_assert(v._data == storage, "storage pointer untouched");)
     V(__CPROVER_assert(v.m_size == 0, "size 0 after destruction");)
-    if (k < cap) L(__CPROVER_assert(v._data[k].g_state == ELEM_RAW, "every slot RAW at destruction: each constructed element destroyed exactly once");)
+    if (k < cap) L(__CPROVER_assert(ELEM_ST(&v._data[k]) == ELEM_RAW, "every slot RAW at destruction: each constructed element destroyed exactly once");)
     CANARY("destructor end reachable");
 }
